@@ -17,7 +17,8 @@
      put_resets_cursor : whether streamfilter.PutStreamFilterChain zeroes the filter cursors before the chain object is pooled
      retry_checks_direct : whether doRetry returns without sending when a local reply became pending during the retry interval
      retry_refinalizes : whether doRetry runs the route's FinalizeRequestHeaders again
-     timers_reset_stream : whether the per-try / global timer callbacks reset the upstream stream themselves *)
+     timers_reset_stream : whether the per-try / global timer callbacks reset the upstream stream themselves
+     hijack_clears_body : whether sendHijackReply (no body) drops a response body stored earlier *)
 From Coq Require Import List ZArith Bool Arith Lia.
 From RecordUpdate Require Import RecordSet.
 Import ListNotations RecordSetNotations.
@@ -35,12 +36,12 @@ Inductive poolres := PoolOk | PoolOverflow | PoolConnFail.
 Inductive verdict := VContinue | VStop | VTerm | VHijack | VHijackCont | VDirect | VReMatch | VReChoose.
 
 Record rfilter := { f_phase : nat (* 0 BeforeRoute, 1 AfterRoute, 2 AfterChooseHost *); f_code : Z; f_verdicts : list verdict }.
-Record sfilter := { sf_verdicts : list verdict (* VContinue | VStop | VTerm *) }.
+Record sfilter := { sf_code : Z; sf_verdicts : list verdict (* VContinue | VStop | VTerm | VHijack | VDirect (through the receive handler) *) }.
 
 Inductive route := RouteNone | RouteDirect (code : Z) (body : bool) | RouteNoCluster | RouteForward.
 
 Record srcp := { loop_bound : nat; min_budget : nat; reset_guarded : bool; direct_clears_again : bool; direct_cancels_retry : bool; direct_resets_upstream : bool;
-  put_resets_cursor : bool; retry_checks_direct : bool; retry_refinalizes : bool; timers_reset_stream : bool;
+  put_resets_cursor : bool; retry_checks_direct : bool; retry_refinalizes : bool; timers_reset_stream : bool; hijack_clears_body : bool;
   reason_code : reason -> Z }.
 
 Record cfg := {
@@ -59,10 +60,11 @@ Record cfg := {
    c_pool; c_delay>.
 #[export] Instance eta_srcp : Settable _ := settable! Build_srcp
   <loop_bound; min_budget; reset_guarded; direct_clears_again; direct_cancels_retry; direct_resets_upstream; put_resets_cursor; retry_checks_direct; retry_refinalizes;
-   timers_reset_stream; reason_code>.
+   timers_reset_stream; hijack_clears_body; reason_code>.
 
 Inductive rkind := KUp | KHijack | KDirect.
-Record resp := { r_kind : rkind; r_code : Z; r_data : bool; r_trailers : bool }.
+Record resp := { r_kind : rkind; r_code : Z; r_data : bool; r_trailers : bool;
+                 r_body : rkind (* whose body the stored data buffer is, when r_data *) }.
 
 Inductive ev :=
   | EvUpResp (k : nat) (status : Z) (data trailers : bool)
@@ -75,7 +77,7 @@ Inductive ev :=
 Inductive step := Worker | Env (e : ev).
 
 Inductive out :=
-  | ODownHdr (e : bool) (k : rkind) (code : Z) | ODownData (e : bool) | ODownTrl | ODownReset
+  | ODownHdr (e : bool) (k : rkind) (code : Z) | ODownData (e : bool) (owner : rkind) | ODownTrl | ODownReset
   | OChoose | OUpNew (k : nat) (r : poolres) | OUpHdr (k : nat) (e : bool) (nfin : nat) | OLeak (k : nat) | OUpData (k : nat) (e : bool) | OUpTrl (k : nat)
   | OUpReset (k : nat)
   | ORes (d : Z) | OGauge (d : Z)
@@ -217,10 +219,16 @@ Definition clean_stream : A :=
           (upd (fun s => s <| process_done := true |>) ;; upreq_reset_stream) ;;
      clean_up ;; emit (OGauge (-1)) ;; emit OLog ;; emit ODestroy).
 
+(* sendHijackReply (body = false) / sendHijackReplyWithBody: new headers; the data buffer is replaced by the body, or - without
+   body - dropped (code in the tree) or LEFT AS IT IS (switch off) *)
 Definition hijack (code : Z) (body : bool) : A :=
-  upd (fun s => s <| rsp := Some {| r_kind := KHijack; r_code := code; r_data := body; r_trailers := false |} |> <| direct := true |>).
+  upd (fun s =>
+         let keep := negb body && negb (hijack_clears_body src) in
+         let d := if keep then match rsp s with Some r => r_data r | None => false end else body in
+         let o := if keep then match rsp s with Some r => r_body r | None => KHijack end else KHijack in
+         s <| rsp := Some {| r_kind := KHijack; r_code := code; r_data := d; r_trailers := false; r_body := o |} |> <| direct := true |>).
 Definition direct_response (code : Z) : A :=
-  upd (fun s => s <| rsp := Some {| r_kind := KDirect; r_code := code; r_data := true; r_trailers := false |} |> <| direct := true |>).
+  upd (fun s => s <| rsp := Some {| r_kind := KDirect; r_code := code; r_data := true; r_trailers := false; r_body := KDirect |} |> <| direct := true |>).
 
 (* upstreamRequest.OnResetStream(reason) *)
 Definition on_up_reset (why : reason) : A :=
@@ -349,7 +357,12 @@ Fixpoint run_send_from (l : list sfilter) (i : nat) : A :=
       let n := nth i (scalls s) O in
       let v := verdict_at (sf_verdicts f) n in
       let '(s1, o1) := (upd (fun s => s <| scalls := incr_nth (scalls s) i |>) ;; emit (OFilterSend i v) ;;
-                        match v with VTerm => clean_stream | _ => ret end) s in
+                        match v with
+                        | VTerm => clean_stream
+                        | VHijack => hijack (sf_code f) false
+                        | VDirect => direct_response (sf_code f)
+                        | _ => ret
+                        end) s in
       match v with
       | VContinue | VHijackCont => let '(s2, o2) := run_send_from l' (S i) s1 in (s2, o1 ++ o2)
       | _ => (s1 <| scursor := O |>, o1)
@@ -439,9 +452,9 @@ Definition down_append_headers (e : bool) (r : resp) : A :=
   upd (fun s => s <| process_done := e |>) ;;
   (if c_oneway c then emit OPanic else emit (ODownHdr e (r_kind r) (r_code r))) ;;
   (if e then end_stream else ret).
-Definition down_append_data (e : bool) : A :=
+Definition down_append_data (e : bool) (owner : rkind) : A :=
   upd (fun s => s <| process_done := e |>) ;;
-  (if c_oneway c then emit OPanic else emit (ODownData e)) ;;
+  (if c_oneway c then emit OPanic else emit (ODownData e owner)) ;;
   (if e then end_stream else ret).
 Definition down_append_trailers : A :=
   upd (fun s => s <| process_done := true |>) ;;
@@ -513,7 +526,7 @@ Definition wstep (s0 : st) : st * list out :=
       | Some r =>
         if r_data r then
           fin PUpRecvTrailer
-              (upreq_guard ((if negb (r_trailers r) then recv_finished else ret) ;; down_append_data (negb (r_trailers r)))) s
+              (upreq_guard ((if negb (r_trailers r) then recv_finished else ret) ;; down_append_data (negb (r_trailers r)) (r_body r))) s
         else (s <| ph := PUpRecvTrailer |>, [])
       | None => (s <| ph := PUpRecvTrailer |>, [])
       end
@@ -537,7 +550,7 @@ Definition env_step (e : ev) (s : st) : st * list out :=
       let s1 := s <| up_alive := false |> in
       if process_done_b s1 || setup_retry s1 then (s1, [])
       else if received s1 then (s1, [])
-      else (s1 <| received := true |> <| rsp := Some {| r_kind := KUp; r_code := status; r_data := d; r_trailers := t |} |>
+      else (s1 <| received := true |> <| rsp := Some {| r_kind := KUp; r_code := status; r_data := d; r_trailers := t; r_body := KUp |} |>
                <| notify := true |>, [])
     else (s, [])
   | EvUpReset k why =>
